@@ -74,6 +74,18 @@ struct Blk {
   const uint8_t *u8() const { return p; }
   char *ch() { return reinterpret_cast<char *>(p); }
 };
+// Input block whose message starts `off` (0..7) bytes into an exact-size heap block and ENDS exactly at the end of the
+// block (ASan red zone right behind the last message byte): heap blocks start 16-byte aligned, so `off` is the alignment
+// of the message start; with off == 0 the message also starts at the block start.  A 0-byte message at off > 0 is the
+// one-past-the-end pointer of the block: reading even one byte is a report.
+struct ABlk {
+  Blk b;
+  size_t off, n;
+  ABlk(const void *src, size_t n_, size_t off_) : b((off_ & 7) + n_, 0xEE), off(off_ & 7), n(n_) { if (n) memcpy(b.p + off, src, n); }
+  ABlk(const std::vector<uint8_t> &v, size_t off_) : ABlk(v.data(), v.size(), off_) {}
+  uint8_t *u8() { return b.p + off; }
+  const char *ch() const { return reinterpret_cast<const char *>(b.p + off); }
+};
 // NUL-terminated exact-size copy of a string without interior NULs
 struct CStr {
   Blk b;
@@ -523,7 +535,7 @@ std::string check_decode(const std::string &text, size_t extra, size_t prefix, b
   info.cls(valid ? (from_encoder ? "dec_encoder_output" : "dec_wellformed") : "dec_malformed");
   if (has_high(text)) info.cls("dec_input_has_byte_ge_0x80");
 
-  Blk in(text.data(), text.size());
+  ABlk in(text.data(), text.size(), extra + prefix);
   // --- DecodeLength, three overloads
   size_t dl = 0, dl_s = 0;
   bool threw = false;
@@ -613,7 +625,7 @@ std::string run(const Scenario &s, CaseInfo &info) {
   std::string want = ref::b64_encode(raw);
   size_t L = want.size();
   info.cls(n % 3 == 0 ? "enc_pad0" : (n % 3 == 1 ? "enc_pad2" : "enc_pad1"));
-  Blk in(raw);
+  ABlk in(raw, extra * 3 + prefix);
   std::string s1 = B::Encode(in.u8(), n);
   if (s1 != want) return fmt("Encode(ptr,len) of %s gave '%s', RFC 4648 gives '%s'", hexs(raw).c_str(), s1.substr(0, 40).c_str(), want.substr(0, 40).c_str());
   std::string s2 = B::Encode(raw);
@@ -769,7 +781,7 @@ std::string run(const Scenario &s, CaseInfo &info) {
   std::vector<uint8_t> raw = cd.data;
   if (raw.size() > 65535) raw.resize(65535);
   size_t n = raw.size();
-  Blk in(raw);
+  ABlk in(raw, extra + prefix);
   std::string want = ref::hex_encode(raw, upper, delim);
   std::string got = S::RawDataToHexStr(in.u8(), (uint16_t)n, upper, delim);
   if (got.size() != want.size()) return fmt("RawDataToHexStr of %zu bytes with a %zu-char delimiter produced %zu chars, expected %zu", n, delim.size(), got.size(), want.size());
@@ -902,7 +914,7 @@ std::string run(const Scenario &s, CaseInfo &info) {
       case PARSE: {
         std::vector<uint8_t> b = bytes_of(op);
         if (b.size() > 24) b.resize(24);
-        Blk in(b);
+        ABlk in(b, b.size() * 3 + nops);
         uint64_t out = 0x5555555555555555ull;
         size_t r = ParseScalableInteger(in.u8(), in.n, out);
         size_t lim = std::min<size_t>(b.size(), 10), t = lim;
@@ -1478,7 +1490,8 @@ std::string run(const Scenario &s, CaseInfo &info) {
   int pattern = -1;
   if (big) data = big_data(*big, pattern);      // a `big` op replaces the message
   size_t n = data.size();
-  Blk in(data);
+  size_t align = (size_t)cd.cfg.in(10, 0, 7), align2 = (size_t)cd.cfg.in(11, 0, 7);   // alignment of the message start / of the second part
+  ABlk in(data, align);
   if (dflt) { seed16 = 0xffff; seed32 = 0xffffffffu; }
   uint16_t c16 = dflt ? CalcCrc16(in.u8(), n) : CalcCrc16(in.u8(), n, seed16);
   uint32_t c32 = dflt ? CalcCrc32(in.u8(), n) : CalcCrc32(in.u8(), n, seed32);
@@ -1493,7 +1506,7 @@ std::string run(const Scenario &s, CaseInfo &info) {
   // a sub-range starting at an odd offset (alignment independence, exact-size block again)
   if (n) {
     size_t off = cut % n;
-    Blk part(data.data() + off, n - off);
+    ABlk part(data.data() + off, n - off, align2);
     if (!big) {   // (the bit-serial CRC references are the expensive part of a large case: whole message only there)
       if (CalcCrc16(part.u8(), part.n, seed16) != ref::crc16(data.data() + off, n - off, seed16)) return fmt("CalcCrc16 differs from the reference on the suffix at offset %zu", off);
       if (CalcCrc32(part.u8(), part.n, seed32) != ref::crc32(data.data() + off, n - off, seed32)) return fmt("CalcCrc32 differs from the reference on the suffix at offset %zu", off);
@@ -1501,6 +1514,21 @@ std::string run(const Scenario &s, CaseInfo &info) {
     if (CalcCheckSum16(part.u8(), part.n) != ref::sum16(data.data() + off, n - off)) return fmt("CalcCheckSum16 differs from the reference on the suffix at offset %zu", off);
     if (CalcCheckSum8(part.u8(), part.n) != ref::sum8(data.data() + off, n - off)) return fmt("CalcCheckSum8 differs from the reference on the suffix at offset %zu", off);
   }
+  // seeded continuation: the message cut in two, each part in its own block at its own alignment; the second call is
+  // seeded with the state after the first (CRC-32 returns the complemented state)
+  if (!big) {
+    size_t k = n ? (cut / 7) % (n + 1) : 0;
+    ABlk p1(data.data(), k, align2), p2(data.data() + k, n - k, align);
+    uint16_t a16 = CalcCrc16(p2.u8(), p2.n, CalcCrc16(p1.u8(), p1.n, seed16));
+    uint32_t a32 = CalcCrc32(p2.u8(), p2.n, ~CalcCrc32(p1.u8(), p1.n, seed32));
+    if (a16 != r16) return fmt("CalcCrc16 of %zu+%zu bytes in two seeded calls (alignments %zu/%zu) = 0x%04x, the whole message gives 0x%04x", k, n - k, align2, align, a16, r16);
+    if (a32 != r32) return fmt("CalcCrc32 of %zu+%zu bytes in two seeded calls (alignments %zu/%zu) = 0x%08x, the whole message gives 0x%08x", k, n - k, align2, align, a32, r32);
+    info.cls_if(k < 4 || n - k < 4, "continuation_part_shorter_than_4_bytes");
+  }
+  static const char *al[] = {"align0", "align1", "align2", "align3", "align4", "align5", "align6", "align7"};
+  info.cls(al[align]);
+  info.cls_if((align & 3) && n < 4 - (align & 3), "unaligned_start_and_message_ends_before_next_4byte_boundary");
+  info.cls_if(n <= 16, "len0_16");
   info.cls(dflt ? "default_seed" : "explicit_seed");
   info.cls(n == 0 ? "len0" : n < 4 ? "len1_3" : n < 64 ? "len4_63" : n < 600 ? "len64_599" : "len600plus");
   info.cls_if(n & 1, "odd_length");
@@ -1522,15 +1550,18 @@ std::string run(const Scenario &s, CaseInfo &info) {
 SubDef def = [] {
   SubDef d; d.name = "crc_checksum";
   d.op_names = {"cfg", "data", "big"};
-  d.op_arity = {10, 8, 4};
-  d.nt_rule = "message of at least 2 bytes (all four functions compared with bit-serial / 64-bit-accumulator references, whole message and a suffix); about 0.5 % of the rapidcheck cases are 128 KiB .. 2 MiB messages (classes large_*), most of them with a word sum >= 2^32";
+  d.op_arity = {12, 8, 4};
+  d.nt_rule = "(every message starts at a generated alignment 0..7 and ends at the end of its heap block; a third of the rapidcheck cases have 0..16 bytes) message of at least 2 bytes (all four functions compared with bit-serial / 64-bit-accumulator references, whole message and a suffix); about 0.5 % of the rapidcheck cases are 128 KiB .. 2 MiB messages (classes large_*), most of them with a word sum >= 2^32";
   d.run = run;
-  d.decode = [](const uint8_t *p, size_t n) { return cfg_data_decode(p, n, 10); };
+  d.decode = [](const uint8_t *p, size_t n) { return cfg_data_decode(p, n, 12); };
 #ifndef VERIF_ENGINE_FUZZ
   d.gen = [] {
     auto any = byteGen({0, 255, 0xff, 0xff, 0xfe, 1}, 2, 6, 2);
     auto b = range(0, 255);
-    auto cfg = mkop(CFG, {range(0, 3), b, b, b, b, b, b, b, rc::gen::weightedOneOf<int64_t>({{3, rc::gen::just<int64_t>(0)}, {1, range(1, 60)}}), b});
+    auto cfg = mkop(CFG, {range(0, 3), b, b, b, b, b, b, b, rc::gen::weightedOneOf<int64_t>({{3, rc::gen::just<int64_t>(0)}, {1, range(1, 60)}}), b, range(0, 7), range(0, 7)});
+    auto cfgSmall = mkop(CFG, {range(0, 3), b, b, b, b, b, b, b, rc::gen::just<int64_t>(0), b, range(0, 7), range(0, 7)});
+    // short messages 0..16 bytes (heads and tails of word-at-a-time loops)
+    auto smallData = rc::gen::mapcat(range(0, 16), [=](int64_t len) { return rc::gen::map(fixedBytes((size_t)len, any), [](std::vector<int64_t> v) { Op o; o.code = DATA; o.a = std::move(v); return o; }); });
     // large messages: sizes around 131072..131080 and 2^18 (cheap) are favoured over 2^19..2^21 and arbitrary sizes;
     // patterns with high-valued bytes (word sum wraps 32 bits early) over uniform bytes and text
     auto bigop = mkop(BIG, {rc::gen::weightedOneOf<int64_t>({{8, range(0, 2)}, {5, rc::gen::just<int64_t>(3)}, {3, rc::gen::just<int64_t>(4)}, {2, range(5, 6)}, {3, range(7, 9)}}),
@@ -1538,7 +1569,8 @@ SubDef def = [] {
                             rc::gen::weightedOneOf<int64_t>({{5, rc::gen::just<int64_t>(0)}, {3, rc::gen::just<int64_t>(1)}, {3, rc::gen::just<int64_t>(2)}, {3, rc::gen::just<int64_t>(3)}, {1, rc::gen::just<int64_t>(4)}, {2, rc::gen::just<int64_t>(5)}}),
                             range(0, 1 << 20)});
     return rc::gen::weightedOneOf<Scenario>({
-      {199, scenarioOf(fixedOps({cfg}), fixedOps({opOfBytes(DATA, any)}))},
+      {130, scenarioOf(fixedOps({cfg}), fixedOps({opOfBytes(DATA, any)}))},
+      {69, scenarioOf(fixedOps({cfgSmall}), fixedOps({smallData}))},
       {1, scenarioOf(fixedOps({cfg}), fixedOps({bigop}))}});
   };
 #endif
@@ -1593,7 +1625,7 @@ std::string run(const Scenario &s, CaseInfo &info) {
   {
     MD5 m;
     for (auto &c : chunks) {
-      Blk in(c);
+      ABlk in(c, (off * 3 + c.size() + chunks.size()) & 7);      // start alignment varies with the position in the message
       m.update(in.u8(), in.n);
       if (!c.empty() && off / 64 != (off + c.size()) / 64 && off % 64 != 0) ++crossings;
       off += c.size();
@@ -1740,7 +1772,8 @@ std::string run(const Scenario &s, CaseInfo &info) {
       uint8_t wc[16], wd[16];
       ref::aes().encrypt(key.data(), pt.data(), wc);
       ref::aes().decrypt(key.data(), pt.data(), wd);
-      Blk in(pt), c(16), back(16), d(16), again(16);
+      ABlk in(pt, nops + (size_t)op.in(0, 0, 1) * 3);
+      Blk c(16), back(16), d(16), again(16);
       if (inplace) { memcpy(c.u8(), pt.data(), 16); a->cipher(c.u8(), c.u8()); info.cls("in_place"); }
       else a->cipher(in.u8(), c.u8());
       if (memcmp(c.u8(), wc, 16)) return fmt("AES cipher(key %s, block %s) = %s, FIPS-197 reference = %s", hexs(key).c_str(), hexs(pt).c_str(), hexs(c.u8(), 16).c_str(), hexs(wc, 16).c_str());
